@@ -7,6 +7,7 @@ projection laws are stated per group (= per call of `baseDiff`), for an arbitrar
 Property theorems only; proofs of the lemmas are in `Lemmas/Diff.lean`.
 -/
 import AnnetModel.Lemmas.Diff
+import AnnetModel.Lemmas.DiffText
 
 /-! OBLIGATIONS
 Annet.Diff.C03_proj_new
@@ -15,6 +16,11 @@ Annet.Diff.C03_ops_exact
 Annet.Diff.C03_moved_characterisation
 Annet.Diff.C03_self_diff_empty
 Annet.Diff.C03_strip_idempotent
+Annet.Diff.C03_diff_text_roundtrip
+Annet.Diff.C03_diff_text_injective
+Annet.Diff.C03_stripped_diff_has_text
+Annet.Diff.C03_pre_text_roundtrip
+Annet.Diff.C03_text_rows_ok_shipped_formatters
 Annet.Diff.C03_moved_iff_relative_order_false
 Annet.Diff.C03_proj_old_order_false
 -/
@@ -73,6 +79,47 @@ theorem C03_self_diff_empty (fuel : Nat) (a : ACfg) (d : List DItem)
 
 theorem C03_strip_idempotent (d : List DItem) : stripUnchanged (stripUnchanged d) = stripUnchanged d :=
   Lemmas.strip_idempotent d
+
+/-! ### the textual views carry the same information (Model/DiffText.lean, Spec/DiffText.lean)
+
+`DiffText.diffText` models `formatter.diff(diff)` (`CommonFormatter._diff_lines`), `DiffText.preText` models
+`gen_pre_as_diff(make_pre(diff))`; both are compared line by line with the real functions on every run (four
+formatter shapes: no marks, Junos `{ } ;`, Nokia `{ }`, RouterOS `/`).  `parseSigned` / `parsePre` are the readers. -/
+
+/-- Reading the deploy-confirmation view back gives the same entries with the same signs and nesting, for every
+formatter with a non-empty indent unit and every entry forest whose printed rows do not begin with the indent unit
+and are not mistaken for a block-end mark (`RowsOK`; see `C03_text_rows_ok_shipped_formatters`). -/
+theorem C03_diff_text_roundtrip (f : DiffText.Fmt) (d : List DiffText.SItem)
+    (hf : DiffText.FmtOK f) (hd : DiffText.RowsOK f d) :
+    DiffText.parseSigned f (DiffText.diffText f d) = some d :=
+  DiffText.diff_text_roundtrip f d hf hd
+
+/-- Hence two diffs with the same text are the same diff (signs, rows, nesting). -/
+theorem C03_diff_text_injective (f : DiffText.Fmt) (d1 d2 : List DiffText.SItem) (hf : DiffText.FmtOK f)
+    (h1 : DiffText.RowsOK f d1) (h2 : DiffText.RowsOK f d2)
+    (h : DiffText.diffText f d1 = DiffText.diffText f d2) : d1 = d2 :=
+  DiffText.diff_text_injective f d1 d2 hf h1 h2 h
+
+/-- What is printed is a stripped diff, and a stripped diff has a sign for every entry at every depth
+(`sign_map[flag]` cannot raise). -/
+theorem C03_stripped_diff_has_text (d : List DItem) :
+    ∃ s, DiffText.signedList (stripUnchanged d) = some s :=
+  DiffText.stripped_has_signs d
+
+/-- The `annet diff` view: reading `gen_pre_as_diff(make_pre(d))` back gives the entries of `d`, per level as a
+multiset (`make_pre` regroups the entries by rule and key, the printer by operation), for every indent of `k > 0`
+blanks and rows that do not begin with a blank. -/
+theorem C03_pre_text_roundtrip (k : Nat) (hk : 0 < k) (d : List DItem) (s : List DiffText.SItem)
+    (hs : DiffText.signedList d = some s) (hb : DiffText.NoLeadBlank s) :
+    ∃ p, DiffText.parsePre k (DiffText.preText (List.replicate k ' ') d) = some p ∧ DiffText.SPermv p s :=
+  DiffText.pre_text_roundtrip k hk d s hs hb
+
+/-- For the shipped formatter shapes the side condition is just "no row begins with a blank" (configuration rows
+never do: the parsers strip them): formatters without marks (indent of blanks) and the Junos-like one. -/
+theorem C03_text_rows_ok_shipped_formatters (d : List DiffText.SItem) (h : DiffText.NoLeadBlank d) :
+    (DiffText.FmtOK DiffText.plainFmt ∧ DiffText.RowsOK DiffText.plainFmt d) ∧
+    (DiffText.FmtOK DiffText.junosFmt ∧ DiffText.RowsOK DiffText.junosFmt d) :=
+  ⟨⟨DiffText.fmtOK_plain, DiffText.rowsOK_plain d h⟩, ⟨DiffText.fmtOK_junos, DiffText.rowsOK_junos d h⟩⟩
 
 /-! ### full-strength readings that are false of the code (recorded findings F03a, F03b) -/
 
